@@ -795,6 +795,12 @@ func goCode(root string, unit string) string {
 		header("Model.GoSem", "Model.GoJson", "Model.GoNet", "Model.GoUrl", "Model.Mime", "Generated.GoObject")
 		text, errs := translateWebfinger(root)
 		emit("client/client.go (ResolveWebfinger, FetchURL)", text, errs)
+	case "main":
+		header("Model.GoSem", "Model.GoSlices", "Model.GoTerm", "Generated.GoView")
+		text, errs := translateMain(parseFile(root, "main.go"))
+		emit("main.go (printRaw, the size poller, the subcommand goroutine, the key loop, the start-up sequence)", text, errs)
+		text, errs = translateResize(parseFile(root, "ui/ui.go"))
+		emit("ui/ui.go ((*State).SetWidthHeight, the size NewState starts with)", text, errs)
 	default:
 		b.WriteString("-- unknown unit " + unit + "\n")
 	}
